@@ -230,7 +230,7 @@ func (r *report) finish() int {
 		if r.lockMode == "check" {
 			var missing []string
 			for name := range lock[p] {
-				if !seen[name] {
+				if !seen[name] && lockAnchored(name) {
 					missing = append(missing, name)
 				}
 			}
@@ -466,3 +466,22 @@ func truncate(s string, n int) string {
 }
 
 func sanitizeObl(s string) string { return strings.ReplaceAll(s, " ", "_") }
+
+// lockAnchored: only obligations that state the specification itself (postconditions,
+// lemmas, ghost assertions, vacuity checks) must keep existing; obligations derived from
+// the shape of the code (call preconditions, frames, implicit safety conditions, loop
+// invariants) legitimately come and go with refactorings and are simply re-generated.
+func lockAnchored(name string) bool {
+	i := strings.LastIndex(name, "#")
+	if i < 0 {
+		return false
+	}
+	k := name[i+1:]
+	switch {
+	case strings.HasPrefix(k, "ensures"), strings.HasPrefix(k, "shows"), strings.HasPrefix(k, "assert-after"):
+		return true
+	case strings.HasPrefix(k, "call-") && strings.Contains(k, "-assert"):
+		return true
+	}
+	return false
+}
